@@ -53,7 +53,7 @@ fn decode(data: &[u8]) -> arbitrary::Result<Case> {
         if u.is_empty() {
             break;
         }
-        ops.push(match u.int_in_range(0u8..=15)? {
+        ops.push(match u.int_in_range(0u8..=16)? {
             0 => Op::Set(u.int_in_range(0u32..=40)?, val(&mut u)?),
             1 => Op::Purge(u.int_in_range(0usize..=45)?),
             2 => Op::PurgeRel(u.int_in_range(0usize..=3)?),
@@ -69,6 +69,7 @@ fn decode(data: &[u8]) -> arbitrary::Result<Case> {
             12 => Op::Antiderivative(val(&mut u)?),
             13 => Op::RoundTrip,
             15 => Op::MulPoly(nonzero(&mut u)?, coefs(&mut u, 5)?),
+            16 => Op::AddVar(coefs(&mut u, 8)?, u.int_in_range(0u8..=7)?, [-3i8, 0, 3][u.int_in_range(0usize..=2)?]),
             _ => Op::Neg,
         });
     }
